@@ -287,6 +287,14 @@ impl<'tcx> HirX<'tcx> {
                 o.push(("sub".into(), self.pat(sub)));
                 o.push(("guard".into(), self.expr(g)));
             }
+            hir::PatKind::Slice(before, mid, after) => {
+                o.push(("k".into(), J::Str("PSlice".into())));
+                o.push(("before".into(), J::Arr(before.iter().map(|p| self.pat(p)).collect())));
+                if let Some(m) = mid {
+                    o.push(("rest".into(), self.pat(m)));
+                }
+                o.push(("after".into(), J::Arr(after.iter().map(|p| self.pat(p)).collect())));
+            }
             other => {
                 o.push(("k".into(), J::Str("POther".into())));
                 let d = format!("{:?}", other);
